@@ -61,7 +61,10 @@ func Compile(grammar *Grammar, opts Options) (*Tables, error) {
 	if opts.MinimizeDFA {
 		minimize(c.out, grammar)
 	}
-	if opts.Optimize {
+	if opts.Optimize && c.out.UsedLADepth > 0 {
+		// The displacement encoding cannot refer to the automata that look further ahead.
+		c.s.Errorf(grammar.Origin, "optimizeTables is not supported when conflicts are resolved with %v tokens of lookahead", c.out.UsedLADepth)
+	} else if opts.Optimize {
 		numRules := len(c.out.RuleLen) // takes into account runtime lookahead rules
 		c.out.Optimized = Optimize(c.out.DefaultEnc, grammar.Terminals, numRules, opts.DefaultReduce)
 	}
